@@ -4,6 +4,7 @@
    Part 1  stream_end, stream_none_forever
    Part 2  stream_item_error        (both fusing mechanisms of set_failed)
    Part 3  stream_item_ok, stream_scalar_needs_delim, stream_next_bad_only_from_item
+   Part 3b stream_lookahead_io_terminal (+ _gen): an I/O error of the lookahead after a bare scalar fuses the stream
    Part 4  stream_values (+ _gen, _full): the history of a whole stream text, under ONE Section hypothesis:
            completeness of the Value item parser [value_item] on a rendered value followed by arbitrary text.
 
@@ -146,7 +147,8 @@ Proof.
       * cbn [res_item] in H. discriminate H.
     + destruct (itemp E _) as [[v s2]| | |].
       * destruct ((b =? 91) || (b =? 34) || (b =? 123))%bool; [discriminate H|].
-        destruct (peek_end_of_value E s2); discriminate H.
+        destruct (peek_end_of_value E s2) as [s3|c i| |]; [discriminate H| |discriminate H|discriminate H].
+        destruct c; discriminate H.     (* every error of the lookahead (I/O or not) yields Some (IErr _ _) *)
       * discriminate H.
       * discriminate H.
       * discriminate H.
@@ -296,11 +298,121 @@ Proof.
   - match type of H with context [itemp E ?s] => destruct (itemp E s) as [[v s2]| | |] eqn:Hit; [| |exists s; left; exact Hit|exists s; right; exact Hit] end.
     + destruct ((b =? 91) || (b =? 34) || (b =? 123))%bool; [discriminate H|].
       unfold peek_end_of_value, peek in H. destruct (rest s2) as [|b2 r2].
-      * unfold at_end in H. destruct (tm E); cbn [bind res_item] in H; discriminate H.
+      * (* end of the buffered input: Ok for an end-of-input reader; for a failing reader the lookahead returns
+           Err (Io _) 0, which is yielded as IErr (and fuses the stream) -- never IBad *)
+        unfold at_end in H. destruct (tm E) as [|kind]; cbn [bind res_item] in H; discriminate H.
       * cbn [bind] in H. destruct (is_delim b2); [discriminate H|].
         unfold peek_error in H. cbn [res_item] in H. discriminate H.
     + cbn [res_item] in H. discriminate H.
 Qed.
+
+(* ------------------------------------------------------------------------------------------ *)
+(** * Part 3b: an I/O error during the one-byte lookahead after a bare scalar is terminal
+      (src/de.rs, StreamDeserializer::next: the lookahead error path now calls set_failed for I/O errors) *)
+
+(* the lookahead can only report an I/O error at the end of the buffered input of a failing reader *)
+Lemma pev_io_inv : forall E s k i,
+  peek_end_of_value E s = Err (Io k) i -> rest s = [] /\ tm E = TFail k /\ i = 0%nat.
+Proof.
+  intros E s k i. unfold peek_end_of_value, peek, at_end.
+  destruct (rest s) as [|b r].
+  - destruct (tm E) as [|k']; cbn [bind]; intros H; [discriminate H|].
+    injection H as Hk Hi. subst k' i. repeat split; reflexivity.
+  - cbn [bind]. destruct (is_delim b); [intros H; discriminate H|].
+    unfold peek_error. intros H. discriminate H.
+Qed.
+
+(* in particular: never for an end-of-input reader *)
+Lemma pev_no_io_eof : forall E s k i, tm E = TEof -> peek_end_of_value E s <> Err (Io k) i.
+Proof.
+  intros E s k i Htm H. destruct (pev_io_inv E s k i H) as (_ & Htm' & _). rewrite Htm in Htm'. discriminate Htm'.
+Qed.
+
+Lemma pws_fail_nil : forall E s k,
+  tm E = TFail k -> rest s = [] -> parse_whitespace E s = Err (Io k) 0.
+Proof.
+  intros E s k Htm Hr. unfold parse_whitespace, advance, peek, at_end. cbn [rest].
+  rewrite Hr. cbn [span_len skipn]. rewrite Htm. reflexivity.
+Qed.
+
+(* the (non-physical) combination "slice reader whose end is an I/O failure": truncating the input does not
+   silence the stream, every later call hits the failing end again *)
+Lemma trunc_fail_run : forall E itemp k, is_io E = false -> tm E = TFail k ->
+  forall n ss, rest (ss_st ss) = [] ->
+  stream_run n E itemp ss = repeat (Some (IErr (Io k) 0), ss_off ss) n.
+Proof.
+  intros E itemp k Hio Htm. induction n as [|n IHn]; intros ss Hr; [reflexivity|].
+  assert (Hnext : stream_next E itemp ss = (Some (IErr (Io k) 0), set_failed E ss)).
+  { unfold stream_next. rewrite Hio. cbn [andb].
+    rewrite (pws_fail_nil E (ss_st ss) k Htm Hr). reflexivity. }
+  rewrite (stream_run_S n E itemp ss _ _ Hnext), set_failed_off. cbn [repeat]. f_equal.
+  rewrite <- (set_failed_off E ss). apply IHn.
+  unfold set_failed. rewrite Hio. reflexivity.
+Qed.
+
+(* General form, every environment: the I/O error of the lookahead is yielded (instead of the value), byte_offset()
+   is just past the scalar, and
+   - IoRead (the only reader that can really fail): the `failed` flag is set, every later call returns None;
+   - otherwise (non-physical): the input is truncated and every later call reports the same I/O error again. *)
+Theorem stream_lookahead_io_terminal_gen : forall E itemp ss w b r v s2 k i,
+  (is_io E && ss_failed ss = false) ->
+  rest (ss_st ss) = w ++ b :: r -> ws_ok w = true -> ws_byte b = false ->
+  itemp E (mkSt (b :: r) (off (ss_st ss) + length w)%nat true (depth (ss_st ss))) = Ok (v, s2) ->
+  self_del b = false -> peek_end_of_value E s2 = Err (Io k) i ->
+  exists ss', stream_next E itemp ss = (Some (IErr (Io k) i), ss')
+    /\ i = 0%nat /\ tm E = TFail k /\ ss_off ss' = off s2
+    /\ forall n, stream_run n E itemp ss'
+                 = repeat (if is_io E then None else Some (IErr (Io k) 0), off s2) n.
+Proof.
+  intros E itemp ss w b r v s2 k i Hf Hrest Hw Hb Hitem Hsd Hpev.
+  destruct (pev_io_inv E s2 k i Hpev) as (Hr2 & Htm & Hi).
+  set (ss2 := mkSS s2 (off s2) (ss_failed ss)).
+  exists (set_failed E ss2).
+  assert (Ho : ss_off (set_failed E ss2) = off s2) by (rewrite set_failed_off; reflexivity).
+  split; [|split; [exact Hi|split; [exact Htm|split; [exact Ho|]]]].
+  - unfold stream_next. rewrite Hf, (pws_some E (ss_st ss) w b r Hrest Hw Hb), Hitem.
+    fold (self_del b). rewrite Hsd, Hpev. reflexivity.
+  - intros n. destruct (is_io E) eqn:Hio.
+    + (* the flag *)
+      assert (Hq : quiet E (set_failed E ss2)).
+      { left. unfold set_failed. rewrite Hio. reflexivity. }
+      rewrite (quiet_run E itemp n _ Hq), Ho. reflexivity.
+    + (* truncation: the end of the truncated input is still the failing end *)
+      rewrite (trunc_fail_run E itemp k Hio Htm n (set_failed E ss2)), Ho; [reflexivity|].
+      unfold set_failed. rewrite Hio. reflexivity.
+Qed.
+
+(* The point of the fix, for the reader kind that can produce I/O errors (IoRead). *)
+Theorem stream_lookahead_io_terminal : forall E itemp ss w b r v s2 k i,
+  is_io E = true ->
+  (is_io E && ss_failed ss = false) ->
+  rest (ss_st ss) = w ++ b :: r -> ws_ok w = true -> ws_byte b = false ->
+  itemp E (mkSt (b :: r) (off (ss_st ss) + length w)%nat true (depth (ss_st ss))) = Ok (v, s2) ->
+  self_del b = false -> peek_end_of_value E s2 = Err (Io k) i ->
+  exists ss', stream_next E itemp ss = (Some (IErr (Io k) i), ss')
+     /\ ss_off ss' = off s2
+     /\ forall n, Forall (fun o => fst o = None /\ snd o = off s2) (stream_run n E itemp ss').
+Proof.
+  intros E itemp ss w b r v s2 k i Hio Hf Hrest Hw Hb Hitem Hsd Hpev.
+  destruct (stream_lookahead_io_terminal_gen E itemp ss w b r v s2 k i Hf Hrest Hw Hb Hitem Hsd Hpev)
+    as (ss' & Hn & _ & _ & Ho & Hrun).
+  exists ss'. split; [exact Hn|]. split; [exact Ho|].
+  intros n. rewrite Hrun, Hio. apply Forall_repeat. split; reflexivity.
+Qed.
+
+(* non-vacuity (input "true", reader failing with kind 3 after the last byte): the I/O error replaces the value,
+   byte_offset() = 4, then None forever *)
+Example stream_lookahead_io_example :
+  stream_run 4 (mkEnv RIo (TFail 3) (mkCfg false false false false)) value_item (stream_init [116; 114; 117; 101])
+  = [(Some (IErr (Io 3) 0), 4%nat); (None, 4%nat); (None, 4%nat); (None, 4%nat)].
+Proof. vm_compute. reflexivity. Qed.
+
+(* the hypothesis [is_io E = true] of [stream_lookahead_io_terminal] cannot be dropped: with the non-physical
+   environment "slice + failing end" the truncated input keeps reporting the error *)
+Example stream_lookahead_io_slice_counterexample :
+  stream_run 3 (mkEnv RSlice (TFail 3) (mkCfg false false false false)) value_item (stream_init [116; 114; 117; 101])
+  = [(Some (IErr (Io 3) 0), 4%nat); (Some (IErr (Io 3) 0), 4%nat); (Some (IErr (Io 3) 0), 4%nat)].
+Proof. vm_compute. reflexivity. Qed.
 
 (* ------------------------------------------------------------------------------------------ *)
 (** * Part 4: the history of a whole stream text *)
@@ -624,6 +736,8 @@ Print Assumptions stream_item_fail.
 Print Assumptions stream_item_ok.
 Print Assumptions stream_scalar_needs_delim.
 Print Assumptions stream_next_bad_only_from_item.
+Print Assumptions stream_lookahead_io_terminal_gen.
+Print Assumptions stream_lookahead_io_terminal.
 Print Assumptions stream_values_gen.
 Print Assumptions stream_values.
 Print Assumptions stream_values_full.
